@@ -41,13 +41,34 @@ fn render_vector(
 ) -> Option<()> {
     let mut sub_pixmap = tiny_skia::Pixmap::new(pixmap.width(), pixmap.height()).unwrap();
     crate::render(tree, transform, &mut sub_pixmap.as_mut());
+
+    // Content that overflows the image size must not be visible.
+    // (An overflow too small to change a pixel, like a rounding error in a path's bounds, is ignored.)
+    let size = tree.size();
+    let bbox = tree.root().layer_bounding_box();
+    let (sx, sy) = transform.get_scale();
+    let tolerance = 0.002 / sx.max(sy).max(f32::EPSILON);
+    let overflows = bbox.left() < -tolerance
+        || bbox.top() < -tolerance
+        || bbox.right() > size.width() + tolerance
+        || bbox.bottom() > size.height() + tolerance;
+    let mask = if overflows {
+        let rect = tiny_skia::Rect::from_xywh(0.0, 0.0, size.width(), size.height())?;
+        let path = tiny_skia::PathBuilder::from_rect(rect);
+        let mut mask = tiny_skia::Mask::new(pixmap.width(), pixmap.height())?;
+        mask.fill_path(&path, tiny_skia::FillRule::Winding, true, transform);
+        Some(mask)
+    } else {
+        None
+    };
+
     pixmap.draw_pixmap(
         0,
         0,
         sub_pixmap.as_ref(),
         &tiny_skia::PixmapPaint::default(),
         tiny_skia::Transform::default(),
-        None,
+        mask.as_ref(),
     );
 
     Some(())
